@@ -127,9 +127,17 @@ def choose(ctx, tuples):
             scs.append({"ns": t["ns"], "nbatch": t["nb"], "nproc": t["np"], "cls": f"{c[0]}/{'+'.join(c[1])}"})
     if ctx.quick:
         rnd.shuffle(scs)
-        hz = [s for s in scs if not s["cls"].startswith("none")][:5]
-        no = [s for s in scs if s["cls"].startswith("none")][:4]
+        hz = [s for s in scs if not s["cls"].startswith("none")][:3]
+        no = [s for s in scs if s["cls"].startswith("none")][:2]
         scs = hz + no
+    # mutation-aware selection: tuples at which a plausible slip in the worker arithmetic (TLC: Sens) would break the property
+    muts = sorted({m for t in tuples for m in t["sens"]})
+    for m in muts:
+        ts = sorted([t for t in tuples if m in t["sens"] and t["np"] >= 2], key=lambda t: (len(t["sens"]), t["ns"], t["nb"], t["np"]))
+        rnd.shuffle(ts)
+        ts = sorted(ts, key=lambda t: len(t["sens"]))          # prefer tuples that single out this variant
+        for t in ts[:1 if ctx.quick else 5]:
+            scs.append({"ns": t["ns"], "nbatch": t["nb"], "nproc": t["np"], "cls": f"sens:{m}"})
     # options: most runs plain (car, no rejection: cheap), a few with each option
     for i, s in enumerate(scs):
         s.update({"seed": ctx.seed * 1000 + i, "reject": False, "k_filter": False, "ns2add": 0, "append": False,
